@@ -17,6 +17,7 @@ def run(tier, seed):
                         "non-trivial = input contains markup characters or produced a non-Text token; distinct by (text, context, skip)")
     headfrag.run(c, tier, seed, ("pyc",))
     headfrag.run_entities(c, tier, seed, ("pyc",))
+    headfrag.run_mixed(c, tier, seed, ("pyc",))
     c.assumptions += ["table generator: Python values by importing /repo's modules, C values by parsing #define / array initialisers (fail-closed)",
                       "token streams are compared by differential execution (testing), not proved equal",
                       "heading level: Python's float log2 formula vs the C shift loop is exercised by the heading inputs only"]
